@@ -118,7 +118,7 @@ class Real:
     def __init__(self):
         self.objs, self.wires, self.ports, self.ifaces = [], [], [], []
         self.oid, self.wid, self.pid = {}, {}, {}
-        self.ifwires = []   # per iface nothing extra
+        self.alias = None   # set when a wire-creating call returned an already existing wire
 
     # -- registration
     def reg_obj(self, o):
@@ -132,6 +132,11 @@ class Real:
     def reg_port(self, p):
         self.pid[id(p)] = len(self.ports)
         self.ports.append(p)
+
+    def fresh(self, ws, expect_n):
+        """the wires handed back by a creating call must be NEW objects (never an alias of an earlier wire)"""
+        if len(ws) != expect_n or any(id(x) in self.wid for x in ws) or len({id(x) for x in ws}) != len(ws):
+            self.alias = [self.wid.get(id(x), 'new') for x in ws]
 
     def port_lens(self, o):
         return (len(o.inPorts), len(o.outPorts), len(o.inOutPorts))
@@ -151,9 +156,32 @@ class Real:
                 o = STANDIN[prim](None if p is None else self.objs[p], n)
                 self.reg_obj(o)
             elif k == 'wire':
-                _, p, n, b = op
-                w = self.objs[p].bidir_wire(n, 1) if b else self.objs[p].wire(n, 1)
+                p, n, b = op[1], op[2], op[3]
+                width = op[4] if len(op) > 4 else 1
+                via = op[5] if len(op) > 5 else 'helper'
+                if via == 'ctor':       # the class constructors directly
+                    w = BidirWire(self.objs[p], n, width) if b else Wire(self.objs[p], n, width)
+                else:                   # Logic.wire / Logic.bidir_wire
+                    w = self.objs[p].bidir_wire(n, width) if b else self.objs[p].wire(n, width)
+                self.fresh([w], 1)
                 self.reg_wire(w)
+            elif k == 'wires':          # Logic.wires(prefix, num, width): the array helper
+                _, p, n, num, width = op
+                parent = self.objs[p]
+                before = {id(x) for x in parent._wires.values()}
+                ws = None
+                try:
+                    ws = parent.wires(n, num, width)
+                finally:
+                    if ws is not None:
+                        self.fresh(ws, num)
+                    for x in parent._wires.values():       # elements created (also before a raise), in creation order
+                        if id(x) not in before and id(x) not in self.wid:
+                            self.reg_wire(x)
+            elif k == 'hwsys':          # HWSystem(): Logic.__init__(None, 'HWSystem') + self.wire('clk')
+                o = quiet(py4hw.HWSystem)
+                self.reg_obj(o)
+                self.reg_wire(o._wires['clk'])
             elif k in ('addIn', 'addOut', 'addInOut'):
                 _, o, n, w = op
                 obj = self.objs[o]
@@ -217,6 +245,10 @@ class Real:
             return f'op newLogic {"_" if op[1] is None else op[1]} {op[2]} {1 if op[3] else 0}'
         if k == 'wire':
             return f'op wire {op[1]} {op[2]} {1 if op[3] else 0}'
+        if k == 'wires':
+            return f'op wires {op[1]} {op[2]} {op[3]}'
+        if k == 'hwsys':
+            return f'opseq newLogic _ HWSystem 0 ; wire {self._next_obj} clk 0'
         if k in ('addIfSource', 'addIfSink'):
             return f'op {k} {op[1]} {op[2] if op[2] else "-"} {op[3]}'
         if k == 'ctor':
@@ -353,6 +385,8 @@ def conflict_expected(R, op):
         return op[1] is not None and op[2] in R.objs[op[1]].children
     if k == 'wire':
         return op[2] in R.objs[op[1]]._wires
+    if k == 'wires':            # any element name of the array already names a wire of the parent
+        return any(f'{op[2]}_{i}' in R.objs[op[1]]._wires for i in range(op[3]))
     if k in ('addOut', 'addInOut'):
         return is_prim(R.objs[op[1]]) and driven(R.wires[op[3]])
     if k == 'rename':           # the new name is held by ANOTHER wire of the same parent
@@ -427,6 +461,7 @@ class Oracle:
         self.reg0 = registries(self.R)
         self.conf = conflict_expected(self.R, op)
         self.moved = None
+        self.R.alias = None
         if op[0] in RENAMES:
             w = self.R.wires[op[1]]
             self.moved = (self.R.oid.get(id(w.parent)), w.name, id(w))
@@ -440,6 +475,9 @@ class Oracle:
         # (1) the call that would create the conflict raises
         if self.conf and not raised:
             report(res, f'{op[0]} that creates a duplicate driver/child/wire was accepted', dict(base, oracle='conflict_raises'))
+        if R.alias is not None:
+            report(res, f'{op[0]} ({outcome}) handed back an already existing wire instead of a new one: {R.alias}',
+                   dict(base, oracle='creation_fresh', returned=R.alias))
         # (2) the earlier driver / child / wire stays in place (after every call, raised or not)
         ch0, wr0, src0 = self.reg0
         ch1, wr1, src1 = registries(R)
@@ -614,7 +652,8 @@ class Batch:
 
 
 # ------------------------------------------------------------------------------------------------
-NAMES = ['a', 'b', 'c', 'x', 'y', 'x_y', 'y_z', 'x_y_z', 'z', 'q']
+NAMES = ['a', 'b', 'c', 'x', 'y', 'x_y', 'y_z', 'x_y_z', 'z', 'q', 'd_0', 'd_1', 'x_1', 'x_y_0']
+PREFIXES = ['d', 'x', 'x_y', 'a', 'y']
 
 
 def pick_name(r, existing, p_conf):
@@ -629,7 +668,7 @@ def soup(res, batch, r, n_ops, label):
     S.do(('newLogic', None, 'top', 0))
     kinds = ['newLogic'] * 12 + ['wire'] * 14 + ['addIn'] * 10 + ['addOut'] * 14 + ['addInOut'] * 3 + ['ctor'] * 10 + \
             ['rename'] * 8 + ['reparent'] * 5 + ['reparentAndRename'] * 5 + ['newIface'] * 3 + ['ifsig'] * 5 + \
-            ['addIf'] * 5 + ['disconnect'] * 3 + ['root'] * 1
+            ['addIf'] * 5 + ['disconnect'] * 3 + ['root'] * 1 + ['wires'] * 6 + ['hwsys'] * 1
     profile = r.choice(['mixed', 'mixed', 'noinout', 'renames'])
     for _ in range(n_ops):
         k = r.choice(kinds)
@@ -645,7 +684,13 @@ def soup(res, batch, r, n_ops, label):
             S.do(('newLogic', p, pick_name(r, R.objs[p].children.keys(), (1, 4)), r.choice([0, 0, 1, 1, 2])))
         elif k == 'wire':
             p = r.randint(0, no - 1)
-            S.do(('wire', p, pick_name(r, R.objs[p]._wires.keys(), (1, 4)), r.chance(1, 10)))
+            S.do(('wire', p, pick_name(r, R.objs[p]._wires.keys(), (1, 4)), r.chance(1, 10), r.choice([1, 1, 8]),
+                  r.choice(['helper', 'helper', 'ctor'])))
+        elif k == 'wires':
+            p = r.randint(0, no - 1)
+            S.do(('wires', p, r.choice(PREFIXES), r.randint(0, 3), r.choice([1, 1, 8])))
+        elif k == 'hwsys':
+            S.do(('hwsys',))
         elif k in ('addIn', 'addOut', 'addInOut'):
             o = r.randint(0, no - 1)
             w = r.randint(0, nw - 1)
@@ -707,7 +752,8 @@ def small_exhaustive(res, batch, L):
              ('addOut', 1, 'r', 0), ('addOut', 2, 'r', 0), ('addOut', 0, 'r', 0), ('addIn', 2, 'a', 0), ('addIn', 1, 'a', 1), ('addOut', 2, 'r', 1),
              ('rename', 0, 'b'), ('rename', 1, 'a'), ('rename', 1, 'c'), ('rename', 0, 'a'),
              ('reparent', 0, 1), ('reparent', 1, 1), ('reparentAndRename', 1, 1, 'a'), ('reparentAndRename', 0, 0, 'b'),
-             ('addInOut', 1, 'io', 1), ('disconnect', 0, 1), ('ctor', 'Not', 0, 'n', [0, 1]), ('ctor', 'Buf', 0, 'p', [1, 0])]
+             ('addInOut', 1, 'io', 1), ('disconnect', 0, 1), ('ctor', 'Not', 0, 'n', [0, 1]), ('ctor', 'Buf', 0, 'p', [1, 0]),
+             ('wire', 0, 'd_1', False, 1, 'ctor'), ('wires', 0, 'd', 2, 1), ('wires', 0, 'd', 3, 1), ('wires', 0, 'a', 1, 8)]
     n = 0
     for hist in itertools.product(alpha, repeat=L):
         S = Session(res, 'small', batch, label=n)
@@ -1117,7 +1163,7 @@ def main(res, tier, rng, replay):
     cat = library_catalogue()
     library(res, rng.fork('library'), (3 if quick else 24) * len(cat), cat, [1, 2, 8] if quick else [1, 2, 3, 4, 5, 7, 8, 13, 16, 32, 64])
     res.cov['rule'] = ('soup: one seeded random history of base.py API calls per case (distinct = distinct history); small: all histories of '
-                       'length L over a 22-call alphabet after a fixed prelude; faults: per random all-driven design the baseline + one case per '
+                       'length L over a 26-call alphabet after a fixed prelude; faults: per random all-driven design the baseline + one case per '
                        'removed leaf + one per duplicated driver; library: block x width x {all-driven, one input undriven, second driver}. '
                        'Every case: outcome and full object-graph snapshot of the real API vs the Lean model after every call, checkIntegrity outcome '
                        'vs model, and the property oracle (conflict raises / earlier registration stays / single driver / unique names / '
